@@ -109,7 +109,9 @@ Section Model.
     end.
 
   Definition any_lt (r : hres) (level : V) : bool := existsb (fun v => nltb N v level) (fst r :: snd r).
-  Definition any_gt (r : hres) (level : V) : bool := existsb (fun v => nltb N level v) (fst r :: snd r).
+  (* [ge]: the comparison of the upper extension loop as written in the source (extracted): false = `>`, true = `>=` *)
+  Definition any_gt (ge : bool) (r : hres) (level : V) : bool :=
+    existsb (fun v => if ge then nleb N level v else nltb N level v) (fst r :: snd r).
   Definition two : V := nofZ N 2.
 
   (* while np.any(results < level): bounds_low /= 2; results = f_cached(bounds_low)     (fuel: None = still looping) *)
@@ -120,11 +122,11 @@ Section Model.
              then let lo' := lo /! two in let (c', r') := f_cached c lo' in extend_low k level c' lo' r'
              else Some (c, lo)
     end.
-  Fixpoint extend_up (fuel : nat) (level : V) (c : cache) (up : V) (r : hres) : option (cache * V) :=
+  Fixpoint extend_up (ge : bool) (fuel : nat) (level : V) (c : cache) (up : V) (r : hres) : option (cache * V) :=
     match fuel with
     | O => None
-    | S k => if any_gt r level
-             then let up' := up *! two in let (c', r') := f_cached c up' in extend_up k level c' up' r'
+    | S k => if any_gt ge r level
+             then let up' := up *! two in let (c', r') := f_cached c up' in extend_up ge k level c' up' r'
              else Some (c, up)
     end.
 
@@ -162,13 +164,13 @@ Section Model.
         end
     end.
 
-  Definition toms748_scan (fuel : nat) (lo up level : V) : option scan_out :=
+  Definition toms748_scan (ge : bool) (fuel : nat) (lo up level : V) : option scan_out :=
     let (c0, rlo) := f_cached [] lo in
     match extend_low fuel level c0 lo rlo with
     | None => None
     | Some (c1, lo') =>
         let (c2, rup) := f_cached c1 up in
-        match extend_up fuel level c2 up rup with
+        match extend_up ge fuel level c2 up rup with
         | None => None
         | Some (c3, up') =>
             let (c4, obs) := run_toms c3 level 0 lo' up' in
@@ -199,7 +201,7 @@ Section Model.
   Definition all_some {A} (l : list (option A)) : option (list A) :=
     fold_right (fun o acc => match o, acc with Some a, Some t => Some (a :: t) | _, _ => None end) (Some []) l.
 
-  Definition upper_limit (grid_bind toms_bind : bindings) (grid_default toms_default : V)
+  Definition upper_limit (ge : bool) (grid_bind toms_bind : bindings) (grid_default toms_default : V)
              (fuel : nat) (bounds : V * V) (scan : option (list V)) (level : V) : option scan_out :=
     match scan with
     | Some s =>
@@ -215,7 +217,7 @@ Section Model.
     | None =>
         match eff_level toms_bind toms_default level with
         | None => None
-        | Some lv => toms748_scan fuel (fst bounds) (snd bounds) lv
+        | Some lv => toms748_scan ge fuel (fst bounds) (snd bounds) lv
         end
     end.
 End Model.
@@ -262,9 +264,9 @@ Section Structural.
     - destruct (f_cached H c (ndiv N lo (two N))) as [c1 r1] eqn:E. eapply IH; [|exact He].
       change c1 with (fst (c1, r1)). rewrite <- E. now apply f_cached_ok.
     - now inversion He; subst. Qed.
-  Lemma extend_up_ok fuel level : forall c up r c' up', cache_ok c -> extend_up H fuel level c up r = Some (c', up') -> cache_ok c'.
+  Lemma extend_up_ok ge fuel level : forall c up r c' up', cache_ok c -> extend_up H ge fuel level c up r = Some (c', up') -> cache_ok c'.
   Proof. induction fuel as [|k IH]; simpl; intros c up r c' up' Hc He; [discriminate|].
-    destruct (any_gt r level).
+    destruct (any_gt ge r level).
     - destruct (f_cached H c (nmul N up (two N))) as [c1 r1] eqn:E. eapply IH; [|exact He].
       change c1 with (fst (c1, r1)). rewrite <- E. now apply f_cached_ok.
     - now inversion He; subst. Qed.
@@ -283,8 +285,8 @@ Section Structural.
   Proof. induction 1 as [|e t He _ IH]; simpl; auto. now rewrite He, IH. Qed.
 
   (* the per-point results handed back are the hypothesis tests at the reported points -- automatic scan *)
-  Theorem results_are_hypotests_auto fuel lo up level o :
-    toms748_scan H toms fuel lo up level = Some o ->
+  Theorem results_are_hypotests_auto ge fuel lo up level o :
+    toms748_scan H toms ge fuel lo up level = Some o ->
     so_results o = map H (so_points o) /\ length (so_exp o) = 5%nat.
   Proof. unfold toms748_scan. destruct (f_cached H [] lo) as [c0 rlo] eqn:E0.
     assert (H0 : cache_ok c0) by (change c0 with (fst (c0, rlo)); rewrite <- E0; apply f_cached_ok; constructor).
@@ -292,7 +294,7 @@ Section Structural.
     assert (H1 : cache_ok c1) by (eapply extend_low_ok; eauto).
     destruct (f_cached H c1 up) as [c2 rup] eqn:E2.
     assert (H2 : cache_ok c2) by (change c2 with (fst (c2, rup)); rewrite <- E2; now apply f_cached_ok).
-    destruct (extend_up H fuel level c2 up rup) as [[c3 up']|] eqn:E3; [|discriminate].
+    destruct (extend_up H ge fuel level c2 up rup) as [[c3 up']|] eqn:E3; [|discriminate].
     assert (H3 : cache_ok c3) by (eapply extend_up_ok; eauto).
     destruct (run_toms H toms c3 level 0 lo' up') as [c4 obs] eqn:E4.
     assert (H4 : cache_ok c4) by (change c4 with (fst (c4, obs)); rewrite <- E4; now apply run_toms_ok).
@@ -306,8 +308,8 @@ Section Structural.
   Proof. split; reflexivity. Qed.
 
   (* -- through upper_limit, whichever mode *)
-  Theorem results_are_hypotests gb tb dg dt fuel bounds scan level o :
-    upper_limit H toms gb tb dg dt fuel bounds scan level = Some o ->
+  Theorem results_are_hypotests ge gb tb dg dt fuel bounds scan level o :
+    upper_limit H toms ge gb tb dg dt fuel bounds scan level = Some o ->
     so_results o = map H (so_points o) /\ length (so_exp o) = 5%nat /\
     (forall s, scan = Some s -> so_points o = s).
   Proof. unfold upper_limit. destruct scan as [s|].
@@ -321,7 +323,7 @@ Section Structural.
         destruct x; [|discriminate]. destruct (all_some t) eqn:Et; [|discriminate]. inversion Hl'; subst. simpl. f_equal. now apply IH. }
       apply Hlen in Ea. simpl in Ea. lia.
     - destruct (eff_level tb dt level) as [lv|]; [|discriminate]. intros Ho.
-      destruct (results_are_hypotests_auto _ _ _ _ _ Ho). split; auto. split; auto. discriminate. Qed.
+      destruct (results_are_hypotests_auto _ _ _ _ _ _ Ho). split; auto. split; auto. discriminate. Qed.
 
 
   Lemma np_interp_unfold (x : V N) xp fp : xp <> [] ->
@@ -338,28 +340,28 @@ Section Structural.
   Proof. unfold eff_level. now intros ->. Qed.
 
   (* specification of the dispatch: the scan function chosen by [scan] runs with the caller's level *)
-  Definition upper_limit_spec (fuel : nat) (bounds : V N * V N) (scan : option (list (V N))) (level : V N) : option (scan_out N) :=
+  Definition upper_limit_spec (ge : bool) (fuel : nat) (bounds : V N * V N) (scan : option (list (V N))) (level : V N) : option (scan_out N) :=
     match scan with
     | Some s => let '(limits, (pts, res)) := linear_grid_scan H s level in
                 match all_some limits with
                 | Some (o :: e) => Some {| so_obs := o; so_exp := e; so_points := pts; so_results := res; so_brackets := [] |}
                 | _ => None end
-    | None => toms748_scan H toms fuel (fst bounds) (snd bounds) level
+    | None => toms748_scan H toms ge fuel (fst bounds) (snd bounds) level
     end.
 
   Theorem level_forwarded_of_tables gb tb :
     assoc "level" gb = Some "param:level"%string -> assoc "level" tb = Some "param:level"%string ->
-    forall dg dt fuel bounds scan level,
+    forall ge dg dt fuel bounds scan level,
       eff_level gb dg level = Some level /\ eff_level tb dt level = Some level /\
-      upper_limit H toms gb tb dg dt fuel bounds scan level = upper_limit_spec fuel bounds scan level.
-  Proof. intros Hg Ht dg dt fuel bounds scan level. split; [now apply eff_level_forwarded|]. split; [now apply eff_level_forwarded|].
+      upper_limit H toms ge gb tb dg dt fuel bounds scan level = upper_limit_spec ge fuel bounds scan level.
+  Proof. intros Hg Ht ge dg dt fuel bounds scan level. split; [now apply eff_level_forwarded|]. split; [now apply eff_level_forwarded|].
     unfold upper_limit, upper_limit_spec. destruct scan; now rewrite eff_level_forwarded. Qed.
 
   (* what the defect looked like: a table without the level entry makes the automatic mode solve at the callee's default *)
   Theorem level_dropped_uses_default gb tb : assoc "level" tb = None ->
-    forall dg dt fuel bounds level level',
-      upper_limit H toms gb tb dg dt fuel bounds None level = upper_limit H toms gb tb dg dt fuel bounds None level'.
-  Proof. intros Ht dg dt fuel bounds l l'. unfold upper_limit. now rewrite !eff_level_dropped. Qed.
+    forall ge dg dt fuel bounds level level',
+      upper_limit H toms ge gb tb dg dt fuel bounds None level = upper_limit H toms ge gb tb dg dt fuel bounds None level'.
+  Proof. intros Ht ge dg dt fuel bounds l l'. unfold upper_limit. now rewrite !eff_level_dropped. Qed.
 
   (* ---------- best_bracket ---------- *)
   Lemma mask_map {A B} (f : A -> B) m l : mask m (map f l) = map f (mask m l).
@@ -649,10 +651,10 @@ Section Auto.
       + change c1 with (fst (c1, r1)). rewrite <- E. now apply f_cached_ok.
       + change r1 with (snd (c1, r1)). rewrite <- E. now apply f_cached_val.
     - inversion He; subst. exact Ea. Qed.
-  Lemma extend_up_spec level fuel : forall c up r c' up', cache_ok RNum H c -> r = H up ->
-    @extend_up RNum H fuel level c up r = Some (c', up') -> @any_gt RNum (H up') level = false.
+  Lemma extend_up_spec ge level fuel : forall c up r c' up', cache_ok RNum H c -> r = H up ->
+    @extend_up RNum H ge fuel level c up r = Some (c', up') -> @any_gt RNum ge (H up') level = false.
   Proof. induction fuel as [|n IH]; cbn [extend_up]; intros c up r c' up' Hc Hr He; [discriminate|].
-    destruct (any_gt r level) eqn:Ea.
+    destruct (any_gt ge r level) eqn:Ea.
     - destruct (@f_cached RNum H c (nmul RNum up (two RNum))) as [c1 r1] eqn:E. eapply (IH c1 _ r1); [| |exact He].
       + change c1 with (fst (c1, r1)). rewrite <- E. now apply f_cached_ok.
       + change r1 with (snd (c1, r1)). rewrite <- E. now apply f_cached_val.
@@ -684,12 +686,16 @@ Section Auto.
   Proof. induction l as [|a t IH]; simpl; intros He x []. - subst. now apply orb_false_iff in He. - apply IH; auto. now apply orb_false_iff in He. Qed.
   Lemma any_lt_false r level : @any_lt RNum r level = false -> forall v, In v (fst r :: snd r) -> level <= v.
   Proof. unfold any_lt. intros He v Hv. pose proof (existsb_false _ _ He v Hv) as Hf. cbn beta in Hf. apply rltb_false in Hf. lra. Qed.
-  Lemma any_gt_false r level : @any_gt RNum r level = false -> forall v, In v (fst r :: snd r) -> v <= level.
-  Proof. unfold any_gt. intros He v Hv. pose proof (existsb_false _ _ He v Hv) as Hf. cbn beta in Hf. apply rltb_false in Hf. lra. Qed.
+  Lemma any_gt_false ge r level : @any_gt RNum ge r level = false -> forall v, In v (fst r :: snd r) -> v <= level.
+  Proof. unfold any_gt. intros He v Hv. pose proof (existsb_false _ _ He v Hv) as Hf. cbn beta in Hf. destruct ge.
+    - apply rleb_false in Hf. lra.
+    - apply rltb_false in Hf. lra. Qed.
+  Lemma any_ge_false r level : @any_gt RNum true r level = false -> forall v, In v (fst r :: snd r) -> v < level.
+  Proof. unfold any_gt. intros He v Hv. pose proof (existsb_false _ _ He v Hv) as Hf. cbn beta in Hf. apply rleb_false in Hf. lra. Qed.
 
   (* every one of the six reported limits is a point returned by the root finder started on a valid bracket of its own curve *)
-  Theorem auto_limits_are_bracketed_roots fuel lo up level o :
-    @toms748_scan RNum H toms fuel lo up level = Some o ->
+  Theorem auto_limits_are_bracketed_roots ge fuel lo up level o :
+    @toms748_scan RNum H toms ge fuel lo up level = Some o ->
     Forall2 (solved_by level) [0; 1; 2; 3; 4; 5]%nat (so_obs o :: so_exp o).
   Proof. unfold toms748_scan. destruct (@f_cached RNum H [] lo) as [c0 rlo] eqn:E0.
     assert (H0 : cache_ok RNum H c0) by (change c0 with (fst (c0, rlo)); rewrite <- E0; apply f_cached_ok; constructor).
@@ -700,26 +706,126 @@ Section Auto.
     destruct (@f_cached RNum H c1 up) as [c2 rup] eqn:E2.
     assert (H2 : cache_ok RNum H c2) by (change c2 with (fst (c2, rup)); rewrite <- E2; now apply f_cached_ok).
     assert (R2 : rup = H up) by (change rup with (snd (c2, rup)); rewrite <- E2; now apply f_cached_val).
-    destruct (@extend_up RNum H fuel level c2 up rup) as [[c3 up']|] eqn:E3; [|discriminate].
+    destruct (@extend_up RNum H ge fuel level c2 up rup) as [[c3 up']|] eqn:E3; [|discriminate].
     assert (H3 : cache_ok RNum H c3) by (eapply extend_up_ok; eauto).
-    pose proof (extend_up_spec _ _ _ _ _ _ _ H2 R2 E3) as Hup.
+    pose proof (extend_up_spec _ _ _ _ _ _ _ _ H2 R2 E3) as Hup.
     destruct (@run_toms RNum H toms c3 level 0 lo' up') as [c4 obs] eqn:E4.
     assert (H4 : cache_ok RNum H c4) by (change c4 with (fst (c4, obs)); rewrite <- E4; now apply run_toms_ok).
     destruct (@exp_loop RNum H toms c4 level [1; 2; 3; 4; 5]%nat) as [[c5 exps]|] eqn:E5; [|discriminate].
     intros [= <-]. simpl so_obs. simpl so_exp. constructor.
     - exists lo', up'. unfold gobj. simpl comp.
       pose proof (any_lt_false _ _ Hlo (fst (H lo')) (or_introl eq_refl)).
-      pose proof (any_gt_false _ _ Hup (fst (H up')) (or_introl eq_refl)).
+      pose proof (any_gt_false _ _ _ Hup (fst (H up')) (or_introl eq_refl)).
       split; [apply Rge_le, Rge_minus, Rle_ge; assumption|]. split; [apply Rle_minus; assumption|]. change obs with (snd (c4, obs)). rewrite <- E4. apply run_toms_root.
     - eapply exp_loop_spec; eauto. Qed.
 
+  (* ---------- the automatic scan cannot fail once both extension loops have ended, provided the upper loop stops only
+     when every curve is strictly below the level (ge = true).  With the strict comparison of the pinned source
+     (ge = false) it can: see auto_scan_exact_hit_refuted below. ---------- *)
+  Lemma f_cached_keeps c p e : In e c -> In e (fst (@f_cached RNum H c p)).
+  Proof. intros He. destruct (f_cached_keys RNum H c p) as [ex ->]. apply in_or_app. now left. Qed.
+  Lemma f_cached_has c p : cache_ok RNum H c -> In (p, H p) (fst (@f_cached RNum H c p)).
+  Proof. intros Hc. unfold f_cached. destruct (cfind c p) as [r|] eqn:E; simpl.
+    - destruct (cfind_in RNum c p r E) as (k & Hin & Hk). apply reqb_true in Hk. subst k.
+      unfold cache_ok in Hc. rewrite Forall_forall in Hc. pose proof (Hc _ Hin) as Hr. simpl in Hr. now subst r.
+    - apply in_or_app. right. now left. Qed.
+  Lemma extend_low_keeps level fuel : forall c lo r c' lo' e, @extend_low RNum H fuel level c lo r = Some (c', lo') -> In e c -> In e c'.
+  Proof. induction fuel as [|n IH]; cbn [extend_low]; intros c lo r c' lo' e He Hin; [discriminate|].
+    destruct (any_lt r level).
+    - destruct (@f_cached RNum H c (ndiv RNum lo (two RNum))) as [c1 r1] eqn:E. eapply IH; [exact He|].
+      change c1 with (fst (c1, r1)). rewrite <- E. now apply f_cached_keeps.
+    - now inversion He; subst. Qed.
+  Lemma extend_up_keeps ge level fuel : forall c up r c' up' e, @extend_up RNum H ge fuel level c up r = Some (c', up') -> In e c -> In e c'.
+  Proof. induction fuel as [|n IH]; cbn [extend_up]; intros c up r c' up' e He Hin; [discriminate|].
+    destruct (any_gt ge r level).
+    - destruct (@f_cached RNum H c (nmul RNum up (two RNum))) as [c1 r1] eqn:E. eapply IH; [exact He|].
+      change c1 with (fst (c1, r1)). rewrite <- E. now apply f_cached_keeps.
+    - now inversion He; subst. Qed.
+  Lemma extend_low_has level fuel : forall c lo r c' lo', cache_ok RNum H c -> In (lo, H lo) c ->
+    @extend_low RNum H fuel level c lo r = Some (c', lo') -> In (lo', H lo') c'.
+  Proof. induction fuel as [|n IH]; cbn [extend_low]; intros c lo r c' lo' Hc Hin He; [discriminate|].
+    destruct (any_lt r level).
+    - destruct (@f_cached RNum H c (ndiv RNum lo (two RNum))) as [c1 r1] eqn:E. eapply (IH c1 _ r1); [| |exact He].
+      + change c1 with (fst (c1, r1)). rewrite <- E. now apply f_cached_ok.
+      + change c1 with (fst (c1, r1)). rewrite <- E. now apply f_cached_has.
+    - now inversion He; subst. Qed.
+  Lemma extend_up_has ge level fuel : forall c up r c' up', cache_ok RNum H c -> In (up, H up) c ->
+    @extend_up RNum H ge fuel level c up r = Some (c', up') -> In (up', H up') c'.
+  Proof. induction fuel as [|n IH]; cbn [extend_up]; intros c up r c' up' Hc Hin He; [discriminate|].
+    destruct (any_gt ge r level).
+    - destruct (@f_cached RNum H c (nmul RNum up (two RNum))) as [c1 r1] eqn:E. eapply (IH c1 _ r1); [| |exact He].
+      + change c1 with (fst (c1, r1)). rewrite <- E. now apply f_cached_ok.
+      + change c1 with (fst (c1, r1)). rewrite <- E. now apply f_cached_has.
+    - now inversion He; subst. Qed.
+  Lemma fold_keeps pts : forall c e, In e c -> In e (fold_left (fun c p => fst (@f_cached RNum H c p)) pts c).
+  Proof. induction pts as [|p t IH]; simpl; intros c e He; auto. apply IH. now apply f_cached_keeps. Qed.
+  Lemma run_toms_keeps c level k a b e : In e c -> In e (fst (@run_toms RNum H toms c level k a b)).
+  Proof. intros He. unfold run_toms. destruct (toms k _ a b) as [pts root]. simpl. now apply fold_keeps. Qed.
+
+  Lemma exp_loop_total level idxs : forall c, cache_ok RNum H c ->
+    (forall k, In k idxs -> exists e, In e c /\ nleb RNum (n0 RNum) (gval RNum level k (snd e)) = true) ->
+    (forall k, In k idxs -> exists e, In e c /\ nltb RNum (gval RNum level k (snd e)) (n0 RNum) = true) ->
+    exists res, @exp_loop RNum H toms c level idxs = Some res.
+  Proof. induction idxs as [|i t IH]; intros c Hc Hpos Hneg; [eexists; reflexivity|]. cbn [exp_loop].
+    destruct (best_bracket_valid RNum c level i) as [_ Hex].
+    destruct (Hex (Hpos i (or_introl eq_refl)) (Hneg i (or_introl eq_refl))) as (a & b & ->).
+    destruct (@run_toms RNum H toms c level i a b) as [c1 r] eqn:E.
+    assert (Hk : forall e, In e c -> In e c1) by (intros e He; change c1 with (fst (c1, r)); rewrite <- E; now apply run_toms_keeps).
+    destruct (IH c1) as [res ->].
+    - change c1 with (fst (c1, r)). rewrite <- E. now apply run_toms_ok.
+    - intros k Hk'. destruct (Hpos k (or_intror Hk')) as (e & He & Hv). exists e. auto.
+    - intros k Hk'. destruct (Hneg k (or_intror Hk')) as (e & He & Hv). exists e. auto.
+    - destruct res. eexists. reflexivity. Qed.
+
+  Lemma comp_in_results k (r : hres RNum) : length (snd r) = 5%nat -> (k < 6)%nat -> In (comp k r) (fst r :: snd r).
+  Proof. intros Hl Hk. destruct k as [|k]; [now left|]. right. cbn [comp]. apply nth_In. rewrite Hl. lia. Qed.
+
+  Theorem auto_scan_total fuel lo up level :
+    (forall p, length (snd (H p)) = 5%nat) ->
+    @toms748_scan RNum H toms true fuel lo up level = None ->
+    let c0 := fst (@f_cached RNum H [] lo) in
+    @extend_low RNum H fuel level c0 lo (H lo) = None \/
+    exists c1 lo', @extend_low RNum H fuel level c0 lo (H lo) = Some (c1, lo') /\
+                   @extend_up RNum H true fuel level (fst (@f_cached RNum H c1 up)) up (H up) = None.
+  Proof. intros Hlen. unfold toms748_scan. destruct (@f_cached RNum H [] lo) as [c0 rlo] eqn:E0. cbn [fst].
+    assert (OK0 : cache_ok RNum H c0) by (change c0 with (fst (c0, rlo)); rewrite <- E0; apply f_cached_ok; constructor).
+    assert (R0 : rlo = H lo) by (change rlo with (snd (c0, rlo)); rewrite <- E0; apply f_cached_val; constructor).
+    assert (I0 : In (lo, H lo) c0) by (change c0 with (fst (c0, rlo)); rewrite <- E0; apply f_cached_has; constructor).
+    subst rlo. destruct (@extend_low RNum H fuel level c0 lo (H lo)) as [[c1 lo']|] eqn:E1; [|intros _; now left]. intros Hnone. right. exists c1, lo'. split; [reflexivity|]. revert Hnone.
+    assert (OK1 : cache_ok RNum H c1) by (eapply extend_low_ok; eauto).
+    pose proof (extend_low_spec _ _ _ _ _ _ _ OK0 eq_refl E1) as Hlo.
+    pose proof (extend_low_has _ _ _ _ _ _ _ OK0 I0 E1) as I1.
+    destruct (@f_cached RNum H c1 up) as [c2 rup] eqn:E2. cbn [fst].
+    assert (OK2 : cache_ok RNum H c2) by (change c2 with (fst (c2, rup)); rewrite <- E2; now apply f_cached_ok).
+    assert (R2 : rup = H up) by (change rup with (snd (c2, rup)); rewrite <- E2; now apply f_cached_val).
+    assert (I2 : In (up, H up) c2) by (change c2 with (fst (c2, rup)); rewrite <- E2; now apply f_cached_has).
+    assert (K2 : forall e, In e c1 -> In e c2) by (intros e He; change c2 with (fst (c2, rup)); rewrite <- E2; now apply f_cached_keeps).
+    subst rup. destruct (@extend_up RNum H true fuel level c2 up (H up)) as [[c3 up']|] eqn:E3; [|intros _; reflexivity].
+    assert (OK3 : cache_ok RNum H c3) by (eapply extend_up_ok; eauto).
+    pose proof (extend_up_spec _ _ _ _ _ _ _ _ OK2 eq_refl E3) as Hup.
+    pose proof (extend_up_has _ _ _ _ _ _ _ _ OK2 I2 E3) as I3.
+    assert (J3 : In (lo', H lo') c3) by (eapply extend_up_keeps; [exact E3|]; now apply K2).
+    destruct (@run_toms RNum H toms c3 level 0 lo' up') as [c4 obs] eqn:E4.
+    assert (OK4 : cache_ok RNum H c4) by (change c4 with (fst (c4, obs)); rewrite <- E4; now apply run_toms_ok).
+    assert (K4 : forall e, In e c3 -> In e c4) by (intros e He; change c4 with (fst (c4, obs)); rewrite <- E4; now apply run_toms_keeps).
+    destruct (exp_loop_total level [1; 2; 3; 4; 5]%nat c4 OK4) as [res Hres].
+    - intros k Hk. exists (lo', H lo'). split; [now apply K4|]. cbn [snd]. apply rleb_le. unfold gval. cbn [nsub n0 RNum].
+      assert (Hk6 : (k < 6)%nat) by (repeat (destruct Hk as [Hk|Hk]; [lia|]); destruct Hk).
+      pose proof (any_lt_false _ _ Hlo _ (comp_in_results k (H lo') (Hlen lo') Hk6)) as Hv.
+      apply Rge_le, Rge_minus, Rle_ge. exact Hv.
+    - intros k Hk. exists (up', H up'). split; [now apply K4|]. cbn [snd]. apply rltb_lt. unfold gval. cbn [nsub n0 RNum].
+      assert (Hk6 : (k < 6)%nat) by (repeat (destruct Hk as [Hk|Hk]; [lia|]); destruct Hk).
+      pose proof (any_ge_false _ _ Hup _ (comp_in_results k (H up') (Hlen up') Hk6)) as Hv.
+      apply Rlt_minus. exact Hv.
+    - rewrite Hres. destruct res. intros Hx. discriminate Hx. Qed.
+
   (* C09, automatic scan: given the root finder's post-condition, each reported limit solves CLs_k(mu) = level up to L * tol *)
-  Theorem auto_limit_solves L fuel lo up level o :
+  Theorem auto_limit_solves L ge fuel lo up level o :
     toms_post -> (forall k, (k < 6)%nat -> lipschitz L (fun p => comp k (H p))) ->
-    @toms748_scan RNum H toms fuel lo up level = Some o ->
+    @toms748_scan RNum H toms ge fuel lo up level = Some o ->
     forall k, (k < 6)%nat ->
       let x := nth k (so_obs o :: so_exp o) 0 in Rabs (comp k (H x) - level) <= L * tol x.
-  Proof. intros Hp Hl Ho k Hk. pose proof (auto_limits_are_bracketed_roots _ _ _ _ _ Ho) as Hf.
+  Proof. intros Hp Hl Ho k Hk. pose proof (auto_limits_are_bracketed_roots _ _ _ _ _ _ Ho) as Hf.
     assert (Hg : forall j, (j < 6)%nat -> lipschitz L (gobj level j)).
     { intros j Hj x y. unfold gobj. replace (comp j (H x) - level - (comp j (H y) - level)) with (comp j (H x) - comp j (H y)) by ring. apply (Hl j Hj). }
     assert (Hs : forall j r, (j < 6)%nat -> solved_by level j r -> Rabs (comp j (H r) - level) <= L * tol r).
@@ -855,4 +961,74 @@ Section QcToR.
     - apply SS_map_q2r in Hs. rewrite map_app in Hs. exact Hs.
     - split; [now apply Qle_Rle|now apply Qlt_Rlt]. Qed.
 End QcToR.
+
+
+(* ====================================================================================== *)
+(* Part 5 : non-vacuity of the premises used above, and a refutation                       *)
+(* ====================================================================================== *)
+Section Examples.
+  Definition q2 := mkq 2 1. Definition q3 := mkq 3 1.
+  (* six CLs curves 1/(1+mu), 1/(1+2mu) (twice), 1/(1+mu) (twice), 2/(2+mu): strictly decreasing on mu >= 0 *)
+  Definition exH (p : Qc) : hres QcNum :=
+    ((1 / (1 + p))%Qc, [(1 / (1 + q2 * p))%Qc; (1 / (1 + q2 * p))%Qc; (1 / (1 + p))%Qc; (1 / (1 + p))%Qc; (q2 / (q2 + p))%Qc]).
+
+  (* grid 0,1,3 at level 1/3: chord crossing 7/3 in the cell [1,3]; exact knot value 1; clamped to the grid end 3 *)
+  Example grid_scan_example :
+    map (option_map qout) (fst (@linear_grid_scan QcNum exH [0%Qc; 1%Qc; q3] (mkq 1 3)))
+    = [Some (7%Z, 3%positive); Some (1%Z, 1%positive); Some (1%Z, 1%positive); Some (7%Z, 3%positive); Some (7%Z, 3%positive); Some (3%Z, 1%positive)].
+  Proof. vm_compute. reflexivity. Qed.
+
+  (* an oracle root finder: evaluates the objective at its answer and returns it *)
+  Definition exToms (roots : list Qc) (k : nat) (g : Qc -> Qc) (a b : Qc) : list Qc * Qc := let r := nth k roots 0%Qc in ([r], r).
+  Definition show (o : option (scan_out QcNum)) :=
+    match o with
+    | Some o => Some (map qout (so_obs o :: so_exp o), map qout (so_points o), map (fun ab => (qout (fst ab), qout (snd ab))) (so_brackets o))
+    | None => None end.
+
+  (* a run of the automatic scan that needs three doublings of the upper bound (level 3/10, bounds (0,1) -> (0,8)) *)
+  Example toms748_scan_example :
+    show (@toms748_scan QcNum exH (exToms [mkq 7 3; mkq 7 6; mkq 7 6; mkq 7 3; mkq 7 3; mkq 14 3]) false 16 0%Qc 1%Qc (mkq 3 10))
+    = Some (map qout [mkq 7 3; mkq 7 6; mkq 7 6; mkq 7 3; mkq 7 3; mkq 14 3],
+            map qout [0%Qc; 1%Qc; q2; mkq 4 1; mkq 8 1; mkq 7 3; mkq 7 6; mkq 14 3],
+            map (fun ab => (qout (fst ab), qout (snd ab)))
+                [(0%Qc, mkq 8 1); (1%Qc, q2); (mkq 7 6, q2); (mkq 7 3, mkq 4 1); (mkq 7 3, mkq 4 1); (mkq 4 1, mkq 8 1)]).
+  Proof. vm_compute. reflexivity. Qed.
+
+  (* REFUTED for the source as pinned (strict `>` in the upper extension loop): at level 1/3 the doubling stops at
+     bounds_up = 4 where the last curve equals the level exactly; best_bracket then has no point with CLs - level < 0 for
+     that curve and the scan fails (python: ValueError: attempt to get argmax of an empty sequence) although both
+     extension loops ended and every curve crosses the level inside [0, 4].  With `>=` the same call succeeds. *)
+  Theorem auto_scan_exact_hit_refuted :
+    exists (H : Qc -> hres QcNum) toms lo up level,
+      (exists c lo', @extend_low QcNum H 16 level (fst (@f_cached QcNum H [] lo)) lo (H lo) = Some (c, lo') /\
+         exists c' up', @extend_up QcNum H false 16 level (fst (@f_cached QcNum H c up)) up (H up) = Some (c', up')) /\
+      @toms748_scan QcNum H toms false 16 lo up level = None /\
+      @toms748_scan QcNum H toms true 16 lo up level <> None.
+  Proof. exists exH, (exToms [q2; 1%Qc; 1%Qc; q2; q2; mkq 4 1]), 0%Qc, 1%Qc, (mkq 1 3). split; [|split].
+    - eexists. eexists. split; [vm_compute; reflexivity|]. eexists. eexists. vm_compute. reflexivity.
+    - vm_compute. reflexivity.
+    - vm_compute. discriminate. Qed.
+
+  Local Open Scope R_scope.
+  Example grid_limit_cell_nonvacuous :
+    grid_limit (1/3) ([1] ++ 1/2 :: 1/4 :: []) ([0] ++ 1 :: 3 :: []) = Some (chord_cross 1 (1/2) 3 (1/4) (1/3))
+    /\ chord_cross 1 (1/2) 3 (1/4) (1/3) = 7/3.
+  Proof. split.
+    - apply grid_limit_cell; auto; [|lra]. repeat constructor; unfold Rgt; lra.
+    - unfold chord_cross. field. Qed.
+
+  Example expected_limits_ordered_nonvacuous : (1 : R) <= 2.
+  Proof. apply (expected_limits_ordered (fun x => 1 - x) (fun x => 2 - x) 0 1 2); intros; lra. Qed.
+
+  (* a root finder call that meets the post-condition: f x = 1 - x on [0,2], exact root, zero tolerance *)
+  Example solves_of_post_nonvacuous :
+    let toms := fun (_ : nat) (_ : R -> R) (_ _ : R) => (@nil R, 1) in
+    let f := fun x : R => 1 - x in
+    (exists u v, 0 <= f u /\ f v <= 0 /\ Rabs (v - u) <= 0 /\ Rmin u v <= snd (toms 0%nat f 0 2) <= Rmax u v) /\ lipschitz 1 f /\ 0 <= f 0 /\ f 2 <= 0.
+  Proof. cbv zeta. split; [|split; [|split]].
+    - exists 1, 1. cbn [snd]. rewrite Rminus_diag_eq by reflexivity. rewrite Rabs_R0. unfold Rmin, Rmax. destruct (Rle_dec 1 1); lra.
+    - intros x y. replace (1 - x - (1 - y)) with (-(x - y)) by ring. rewrite Rabs_Ropp. lra.
+    - lra.
+    - lra. Qed.
+End Examples.
 
